@@ -129,9 +129,16 @@ func (f *function) diffEnv() (bool, string, diff.ValueDiff, error) {
 		return false, "target has never been run", nil, nil
 	}
 
+	// Identical stamps mean identical environments. This also covers environments that cannot be compared
+	// structurally, e.g. ones that contain cyclic data.
+	if stamp, err := f.stamp(); err == nil && stamp == f.targetInfo.Data {
+		return true, "", nil, nil
+	}
+
 	eq, err := starlark.EqualDepth(f.oldEnv, f.newEnv, 1000)
 	if err != nil {
-		return false, "", nil, fmt.Errorf("comparing function environments: %w", err)
+		// The stamps differ and the environments cannot be compared: the target is out of date.
+		return false, "environment changed", nil, nil
 	}
 	if eq {
 		return true, "", nil, nil
@@ -147,7 +154,7 @@ func (f *function) diffEnv() (bool, string, diff.ValueDiff, error) {
 
 	d, err := diff.DiffDepth(f.oldEnv, f.newEnv, 1000)
 	if err != nil {
-		return false, "", nil, fmt.Errorf("diffing environments: %w", err)
+		return false, "environment changed", nil, nil
 	}
 	md, ok := d.(*diff.MappingDiff)
 	if !ok {
@@ -245,15 +252,24 @@ func (f *function) evaluate() (data string, changed bool, err error) {
 		return "", false, err
 	}
 
+	stamp, err := f.stamp()
+	if err != nil {
+		return "", false, err
+	}
+
+	f.oldEnv = f.newEnv
+	return stamp, true, nil
+}
+
+// stamp returns the function's pickled environment in the form in which it is persisted.
+func (f *function) stamp() (string, error) {
 	var buf bytes.Buffer
 	b64 := base64.NewEncoder(base64.StdEncoding, &buf)
 	if err := pickle.NewEncoder(b64, newEnvPickler()).Encode(f.function); err != nil {
-		return "", false, err
+		return "", err
 	}
 	b64.Close()
-
-	f.oldEnv = f.newEnv
-	return buf.String(), true, nil
+	return buf.String(), nil
 }
 
 func (f *function) load() error {
